@@ -24,11 +24,13 @@ def run(ctx):
   rule_cache(ctx)
   rule_forms(ctx)
   rule_dup(ctx)
+  from . import c02
+  ctx.borrow(c02.rule_release, "R-C10-DUP", lambda r: r.where.endswith("BatchDLOfDifferences"))
   ctx.expect("R-C10-COVER", 4, "candidates, step, adjacency, reach")
   ctx.expect("R-C10-TABLE", 4, "table coverage + point sequence")
   ctx.expect("R-C10-CACHE", 2, "two cached searches")
   ctx.expect("R-C10-FORMS", 4, "two multiplier families, bound, enumeration")
-  ctx.expect("R-C10-DUP", 2, "skip + pair coverage")
+  ctx.expect("R-C10-DUP", 5, "skip + pair coverage + comparison-list alignment and both relation stores (shared with C02)")
 
 
 def apply_floor_lemma(D, positive_atoms):
